@@ -212,6 +212,11 @@ def r3_covers(prog, rep: Report, tp: Cls, fp: Cls):
     unreg = [c for c in calls_in(rmv.node) if isinstance(c.func, ast.Attribute) and c.func.attr == "remove"
              and dotted(c.func.value) == (rmv.self_name, reg) and [src(a) for a in c.args] == [p]]
     uncond = all(getattr(getattr(c, "_parent", None), "_parent", None) is rmv.node for c in unreg)
+    order_ok = bool(rm) and bool(unreg) and rm[0].lineno < unreg[0].lineno
+    rep.check("C20.R3", rmv, "remove-order", order_ok, "the path is unregistered only after the deletion was attempted",
+              "remove() drops the path from the registry before os.remove ran: if the deletion fails (e.g. PermissionError) the file "
+              "stays on disk but is no longer listed, so neither flush() nor leaving the context removes it",
+              scenario="os.remove raises PermissionError once inside remove(p): afterwards p exists but the pool does not list it")
     rep.check("C20.R3", rmv, "remove", len(rm) == 1 and len(unreg) == 1 and uncond, "deletes the file and unregisters the path",
               "remove() does not both delete the file and (unconditionally) unregister the path",
               scenario="pool.remove(p) leaves p listed: len(pool) and pool[i] disagree with the files on disk")
